@@ -171,6 +171,7 @@ class Module:
         s.funcs = {}      # name -> Func
         s.decls = {}      # name -> (ret, [param types], va)
         s.order = []
+        s.unsupported = {}   # functions whose signature uses something we refuse (vector types, ...)
 
 class Func:
     pass
@@ -220,16 +221,24 @@ def parse_module(text):
             m.order.append(name)
             i += 1; continue
         if ln.startswith('declare'):
-            toks = tokenize(ln); p = P(toks); p.next()
-            ret, name, params, va, _ = parse_fn_header(p)
-            m.decls[name] = (ret, [t for t, _ in params], va)
+            try:
+                toks = tokenize(ln); p = P(toks); p.next()
+                ret, name, params, va, _ = parse_fn_header(p)
+                m.decls[name] = (ret, [t for t, _ in params], va)
+            except Unsupported as e:
+                mm = re.search(r'(@[\w.$]+|@"[^"]+")\(', ln)
+                if mm: m.unsupported[mm.group(1)] = str(e)      # any use of it is refused later
             i += 1; continue
         if ln.startswith('define'):
             j = i
             while lines[j] != '}':
                 j += 1
-            f = parse_function(lines[i:j])
-            m.funcs[f.name] = f
+            try:
+                f = parse_function(lines[i:j])
+                m.funcs[f.name] = f
+            except Unsupported as e:
+                mm = re.search(r'(@[\w.$]+|@"[^"]+")\(', ln)
+                if mm: m.unsupported[mm.group(1)] = str(e)
             i = j + 1; continue
         raise Unsupported('toplevel: ' + ln[:60])
     return m
@@ -360,6 +369,8 @@ class Emitter:
         s.pending_structs = {}
         s.fwd = []
         s.native_uf = set()
+        s.stub_defs = {}
+        s.need_cuf = False
 
     # ---- types
     def cty(s, t):
@@ -711,7 +722,10 @@ def translate_function(E, f):
                     ty = p.type(); a = E.value(p, ty, env); p.expect(','); b = E.value(p, ty, env)
                     uf = E.opts.get('uf', set())
                     if op[1:] in uf:
-                        e = '__CPROVER_uninterpreted_%s_%s(%s,%s)' % (op, ty.k, a, b)
+                        # IEEE + and * are commutative (NaN payloads aside): the uninterpreted symbol is applied to the
+                        # operands in bit-pattern order, so operand order chosen by the compiler never matters
+                        e = ('verif_uf_%s_%s(%s,%s)' if op in ('fadd', 'fmul') else '__CPROVER_uninterpreted_%s_%s(%s,%s)') % (op, ty.k, a, b)
+                        E.need_cuf = True
                         E.used_decls.add(('uf', '%s __CPROVER_uninterpreted_%s_%s(%s,%s);' % (ty.k, op, ty.k, ty.k, ty.k)))
                         E.native_uf.add('#define __CPROVER_uninterpreted_%s_%s(a,b) ((a) %s (b))' % (op, ty.k, {'fadd': '+', 'fsub': '-', 'fmul': '*', 'fdiv': '/'}.get(op, '?')))
                     elif op == 'frem':
@@ -959,6 +973,8 @@ def emit_call(E, f, env, ins, rty, callee, args, decls, retzero):
         if base == 'is' and parts[2] == 'constant': return res('0')
         if base == 'objectsize': return res('(uint64_t)-1')
         raise Unsupported('intrinsic ' + name)
+    if callee in m.unsupported:
+        raise Unsupported('call to %s whose signature is not supported: %s' % (callee, m.unsupported[callee]))
     if name == '__cxa_allocate_exception':
         return res('(uint8_t*)__verif_exc_buf')
     if name == '__cxa_free_exception': return []
@@ -990,6 +1006,7 @@ def emit_call(E, f, env, ins, rty, callee, args, decls, retzero):
     # external: declared stub
     sig = '%s STUB_%s(%s);' % (E.cty(rty), cname(callee), ','.join(E.cty(t) for t, _ in args) or 'void')
     E.used_decls.add(('stub', sig))
+    E.stub_defs[cname(callee)] = (E.cty(rty), [E.cty(t) for t, _ in args])
     return res('STUB_%s(%s)' % (cname(callee), ','.join(av)))
 
 def translate(text, only=None, opts=None, module=None):
@@ -1000,14 +1017,22 @@ def translate(text, only=None, opts=None, module=None):
     E.need = set()
     todo = list(only) if only else [n for n in m.funcs if not n.startswith('@_GLOBAL__') and not n.startswith('@__cxx_global')]
     roots = list(todo)
-    done = {}
-    while todo:
-        n = todo.pop()
-        if n in done: continue
-        if n not in m.funcs: raise Unsupported('no such function ' + n)
-        E.need = set()
-        done[n] = translate_function(E, m.funcs[n])
-        todo.extend(E.need - set(done))
+    done = {}; skipped = {}
+    for root in roots:
+        tmp = {}; stack = [root]
+        try:
+            while stack:
+                n = stack.pop()
+                if n in done or n in tmp: continue
+                if n in m.unsupported: raise Unsupported('%s: %s' % (n, m.unsupported[n]))
+                if n not in m.funcs: raise Unsupported('no such function ' + n)
+                E.need = set()
+                tmp[n] = translate_function(E, m.funcs[n])
+                stack.extend(E.need - set(done) - set(tmp))
+            done.update(tmp)
+        except Unsupported as e:
+            if (opts or {}).get('strict'): raise
+            skipped[root[1:]] = str(e)[:300]     # refused, not approximated: the root is simply not available
     # globals (fixpoint over references between initialisers)
     inits = {}
     changed = True
@@ -1039,7 +1064,7 @@ def translate(text, only=None, opts=None, module=None):
         else:
             gdef.append('%s%s G_%s = %s;' % ('const ' if const else '', E.cty(ty), cname(g), iv))
     hdr = ['/* generated by ll2c.py - do not edit */', '#include <stdint.h>', '#include <stddef.h>', '#include <math.h>', '#include <string.h>',
-           '#ifndef __CPROVER__', '#include <stdlib.h>', '#define __CPROVER_assert(c,m) ((void)0)', '#define __CPROVER_assume(c) ((void)0)', '#endif',
+           '#ifndef __CPROVER__', '#include <stdlib.h>', '#include <unistd.h>', '#define __CPROVER_assert(c,m) ((void)0)', '#define __CPROVER_assume(c) ((void)0)', '#endif',
            'extern int __verif_exc; extern uint64_t __verif_exc_buf[32];']
     while [n for n in E.pending_structs if n not in E.tynames]:
         for n in [n for n in list(E.pending_structs) if n not in E.tynames]: E.named(n)
@@ -1047,15 +1072,27 @@ def translate(text, only=None, opts=None, module=None):
     ufs = [d for k, d in sorted(E.used_decls) if k == 'uf']
     stubs = [d for k, d in sorted(E.used_decls) if k == 'stub']
     hdr += ['#ifdef __CPROVER__'] + ufs + ['#else'] + sorted(E.native_uf) + ['#endif']
+    if E.need_cuf:
+        hdr += ['#ifndef VERIF_CUF', '#define VERIF_CUF']
+        for k, bits in (('float', 'uint32_t'), ('double', 'uint64_t')):
+            for op, sym in (('fadd', '+'), ('fmul', '*')):
+                hdr += ['#ifdef __CPROVER__', '%s __CPROVER_uninterpreted_%s_%s(%s,%s);' % (k, op, k, k, k),
+                        'static inline %s verif_uf_%s_%s(%s a, %s b) { %s x, y; memcpy(&x, &a, sizeof x); memcpy(&y, &b, sizeof y); return x <= y ? __CPROVER_uninterpreted_%s_%s(a, b) : __CPROVER_uninterpreted_%s_%s(b, a); }' % (k, op, k, k, k, bits, op, k, op, k),
+                        '#else', 'static inline %s verif_uf_%s_%s(%s a, %s b) { return a %s b; }' % (k, op, k, k, k, sym), '#endif']
+        hdr += ['#endif']
     hdr += stubs
     hdr += gdecl
     for k, v in sorted(E.exc_ids.items()): hdr.append('#define VERIF_EXC_%s %d' % (k, v))
     hdr += [h for h, _ in done.values()]
     body = ['/* generated by ll2c.py - do not edit */']
     body += gdef
+    body.append('#ifndef __CPROVER__   /* natively, an undefined external aborts (translator validation never reaches one) */')
+    for nm, (rt, ats) in sorted(E.stub_defs.items()):
+        body.append('__attribute__((weak)) %s STUB_%s(%s) { write(2, "undefined external STUB_%s reached\\n", %d); abort(); }' % (rt, nm, ', '.join('%s a%d' % (t, i) for i, t in enumerate(ats)) or 'void', nm, len(nm) + 33))
+    body.append('#endif')
     body += [b for _, b in done.values()]
     info = {'functions': {n[1:]: sum(len(b[1]) for b in m.funcs[n].blocks) for n in done},
-            'roots': [r[1:] for r in roots], 'stubs': [re.search(r'(STUB_\w+)', d).group(1) for d in stubs],
+            'roots': [r[1:] for r in roots if r[1:] not in skipped], 'skipped': skipped, 'stubs': [re.search(r'(STUB_\w+)', d).group(1) for d in stubs],
             'uf': [re.search(r'(__CPROVER_uninterpreted_\w+)', d).group(1) for d in ufs],
             'exc_ids': dict(E.exc_ids)}
     return '\n'.join(hdr) + '\n', '\n'.join(body) + '\n', info
